@@ -354,6 +354,8 @@ def generate(rng, tier):
     # model extension: dict subclasses, pandas / numpy branches, closed text helpers, failing awaitables
     for c in X.generate(rng, tier):
         yield c
+    for c in X.gen_waiterf(rng, tier, w_struct, enc_w):
+        yield c
 
 
 # ---------------------------------------------------------------- implementation runner
@@ -452,6 +454,9 @@ def run_line(state, sx):
     model, op, args = sx[0], sx[1], sx[2:]
     if model == 'liftx':
         return X.run_line(sx)
+    if model == 'waiterf':
+        evs = [(int(e[1].split(':')[1]), (e[2][1] == 'B:1', proto.dec(e[2][2]))) for e in args[1][1:]]
+        return 'ok ' + enc(X.run_waiterf(args[0], evs, dec_w))
     if model == 'waiter':
         evs = [(int(e[1].split(':')[1]), proto.dec(e[2])) for e in args[1][1:]]
         done, res = run_waiter(args[0], evs)
@@ -646,6 +651,10 @@ def lib_expected(line, mr):
 def compare(case, i, line, ir, mr):
     if line.startswith('(liftx '):
         return X.compare(line, ir, mr)
+    if line.startswith('(waiterf '):
+        if proto.same_reply(ir, mr, numeric=False):
+            return None
+        return ('divergence', 'failing awaitables (model extension, the statement speaks of results): implementation %s, model %s' % (ir, mr))
     if line.startswith('(lift lib '):
         exp = lib_expected(line, mr)
         if proto.same_reply(ir, exp, numeric=False):
@@ -669,6 +678,8 @@ def nontrivial(line, reply):
     sx = proto.parse(line)
     if sx[0] == 'liftx':
         return X.nontrivial(line, reply)
+    if sx[0] == 'waiterf':
+        return '(A ' in line
     if sx[0] == 'waiter':
         return '(A ' in line
     if sx[1] in ('call', 'callx'):
